@@ -8,5 +8,6 @@ CONSTANTS
   DevMatchRawPath = FALSE
   DevEmptyListMeansNoList = FALSE
   DevClimbAndReturn = FALSE
+  DevIndexNotJudged = FALSE
 CONSTRAINT Report
 CHECK_DEADLOCK FALSE
